@@ -150,3 +150,36 @@ def clock_calls(node: ast.AST) -> list[tuple[ast.Call, str]]:
             else:
                 out.append((n, "local"))
     return out
+
+
+def affix_strip_misuse(node: ast.AST) -> list[ast.Call]:
+    """``x.rstrip(".zo")`` / ``x.lstrip("prop:")``: strip() takes a character SET.
+
+    A multi-character argument that contains a letter or digit is a suffix /
+    prefix the author meant to remove exactly; strip removes any run of those
+    characters instead.  Punctuation sets such as "(),.?!;:" are genuine sets.
+    """
+    out = []
+    for n in ast.walk(node):
+        if isinstance(n, ast.Call) and isinstance(n.func, ast.Attribute) and n.func.attr in ("strip", "lstrip", "rstrip") and len(n.args) == 1:
+            a = n.args[0]
+            if isinstance(a, ast.Constant) and isinstance(a.value, str) and len(a.value) >= 2 and any(c.isalnum() for c in a.value):
+                out.append(n)
+    return out
+
+
+def split_join_mismatch(node: ast.AST) -> list[tuple[ast.Call, str]]:
+    """``SEP.join(x.split(OTHER)...)`` with OTHER != SEP (or a bare ``split()``) re-flows text."""
+    out = []
+    for n in ast.walk(node):
+        if isinstance(n, ast.Call) and isinstance(n.func, ast.Attribute) and n.func.attr == "join" and isinstance(n.func.value, ast.Constant) and n.args:
+            sep = n.func.value.value
+            for s in ast.walk(n.args[0]):
+                if isinstance(s, ast.Call) and isinstance(s.func, ast.Attribute) and s.func.attr == "split":
+                    if not s.args:
+                        out.append((n, f"{sep!r}.join(... .split()) collapses every run of whitespace (including newlines)"))
+                    elif isinstance(s.args[0], ast.Constant) and s.args[0].value != sep:
+                        out.append((n, f"{sep!r}.join(... .split({s.args[0].value!r}))"))
+                elif isinstance(s, ast.Call) and isinstance(s.func, ast.Attribute) and s.func.attr == "splitlines":
+                    out.append((n, f"{sep!r}.join(... .splitlines()) splits on more than '\\n'"))
+    return out
